@@ -117,6 +117,12 @@ def _map_query_error(error: duckdb.Error, sql_query: str) -> Exception:
         value = msg.split("to Duration: ", 1)[-1].split("\n", 1)[0] if "to Duration: " in msg else "unknown"
         return RunTimeError("2-1-5-1", value=value, type_1="String", type_2="Duration")
 
+    # Custom VTL cast errors: String that is not a date → Date
+    if "cannot cast string to date: " in msg_lower:
+        marker = "to Date: "
+        value = msg.split(marker, 1)[-1].split("\n", 1)[0] if marker in msg else "unknown"
+        return RunTimeError("2-1-19-8", date=value)
+
     # Custom VTL cast errors: String that is not a period (nor an interval) → Time_Period
     if "cannot cast string to time_period" in msg_lower:
         marker = "to Time_Period: "
